@@ -20,6 +20,33 @@ pub fn tab(plan: Plan, universe: u8, max_len: usize, probes: Vec<TProbe>, full: 
     Box::new(BfsConfig::new(label, TabHarness::new(c), lim))
 }
 
+/// Scripted deep tables (full probe windows, full load, tombstones) under a
+/// plan, then a depth-bounded search.
+fn seeded(plan: Plan, full: bool, depth: u32, tier: Tier) -> Box<dyn Config> {
+    let w = super::width();
+    let (gw, fill) = if w == 16 { (16u8, 28u8) } else { (8u8, 14u8) };
+    let mut c = TabCfg::new(plan, fill + 2);
+    c.max_len = fill as usize + 1;
+    c.max_dup = 1;
+    c.max_buckets = if w == 16 { 64 } else { 32 };
+    c.full_alphabet = full;
+    let label = format!("{}-seeded-{}-d{}", c.label(), if full { "full" } else { "core" }, depth);
+    let lim = Limits { max_depth: Some(depth), max_wall_s: if tier == Tier::Quick { 30.0 } else { 600.0 }, ..Default::default() };
+    let mut b = BfsConfig::new(label, TabHarness::new(c), lim);
+    let ins = |n: u8| (0..n).map(TabOp::InsertUnique).collect::<Vec<_>>();
+    let mut seeds = vec![ins(gw + 1), ins(fill)];
+    for removed in [1u8, gw / 2, fill / 2, fill - 8] {
+        let mut h = ins(fill);
+        h.extend((0..removed).map(TabOp::Remove));
+        seeds.push(h);
+    }
+    let mut h = ins(fill);
+    h.extend((0..fill).filter(|i| i % 2 == 1).map(TabOp::Remove));
+    seeds.push(h);
+    b.seeds = seeds;
+    Box::new(b)
+}
+
 pub fn configs(tier: Tier) -> Vec<Box<dyn Config>> {
     let sse2 = super::width() == 16;
     let q = tier == Tier::Quick;
@@ -32,6 +59,10 @@ pub fn configs(tier: Tier) -> Vec<Box<dyn Config>> {
         v.push(tab(Plan::Zero, if q { 6 } else { 8 }, if q { 9 } else { 11 }, vec![], true, tier, ""));
         v.push(tab(Plan::Cluster(2), if q { 4 } else { 6 }, if q { 5 } else { 8 }, vec![], true, tier, ""));
         v.push(tab(Plan::Adv(0), 4, 5, vec![], true, tier, ""));
+    }
+    for plan in [Plan::Zero, Plan::Tail, Plan::Max] {
+        v.push(seeded(plan, true, 1, tier));
+        v.push(seeded(plan, false, if q { 2 } else { 3 }, tier));
     }
     v
 }
